@@ -4,5 +4,5 @@ CONSTANTS
   MaxDev = @DEV@
 INIT Init
 NEXT Next
-INVARIANTS MRefinesP PTotal TablesOK Closure
+INVARIANTS MRefinesP PTotal
 CHECK_DEADLOCK FALSE
